@@ -356,16 +356,11 @@ func knownDeviation(fs []finding, pid, dev string) *finding {
 	if dev == "" {
 		return nil
 	}
+	// a named deviation is computed by the trace specification for one specific event; it explains that event
+	// whichever properties the event is attributed to (e.g. C15's finding seen inside a C18 goroutine block)
 	for i := range fs {
 		if fs[i].Status == "open" && fs[i].Deviation == dev {
-			if fs[i].Property == pid {
-				return &fs[i]
-			}
-			for _, a := range fs[i].Also {
-				if a == pid {
-					return &fs[i]
-				}
-			}
+			return &fs[i]
 		}
 	}
 	return nil
@@ -667,7 +662,7 @@ func runCheck(env *run.Env, c *check) int {
 		if f == nil {
 			continue
 		}
-		fmt.Printf("KNOWN-FINDING: property=%s %s: %s (%d events in this run)\n", c.id, dev, f.What, n)
+		fmt.Printf("KNOWN-FINDING: property=%s %s: %s (%d events in this run)\n", f.Property, dev, f.What, n)
 	}
 	var otherKeys []string
 	for k := range other {
